@@ -187,6 +187,7 @@ func init() {
 		Gen: genGeneric("C01", func(g *genCtx) {
 			someFaults(g)
 			g.ft.PAvail = 0.95
+			g.ft.PReenter = []float64{0, 0, 0.08}[g.r.Intn(3)]
 			if g.ft.MaxScopes < 2 {
 				g.ft.MaxScopes = 2
 			}
